@@ -387,8 +387,9 @@ ListingSkips == {"int", "long", "float", "double", "string"}      \* combinators
 ListingFileLine(c, tagHex, file) == ListingLine(c, tagHex) \o " //  " \o file
 Listed(c) == QName(c.ns, c.nm) \notin ListingSkips
 (* what a listing line denotes when it is terminated and parsed again: the same combinator with its effective *)
-(* tag written explicitly and its modifiers in listing order                                                  *)
-ListingDenotes(c, tagHex) == [c EXCEPT !.tag = tagHex, !.mods = SortMods(c.mods, Len(c.mods))]
+(* tag written explicitly, its modifiers in listing order and every arithmetic expression replaced by its     *)
+(* value (the canonical rule)                                                                                 *)
+ListingDenotes(c, tagHex) == [FoldC(c) EXCEPT !.tag = tagHex, !.mods = SortMods(c.mods, Len(c.mods))]
 
 ---------------------------------------------------------------------------
 (* 5. THE PRINTER (TL.String): one combinator per line, sections inserted   *)
